@@ -396,6 +396,8 @@ impl ReplicationFetcher {
 
         // push the event off thread so as to be non-blocking
         let _handle = spawn(async move {
+            #[cfg(maidsafe_safe_network_verif)]
+            crate::verif::gate("fetcher.send_event", format!("{event:?}")).await;
             if capacity == 0 {
                 warn!(
                     "NetworkEvent channel is full. Await capacity to send: {:?}",
@@ -408,6 +410,9 @@ impl ReplicationFetcher {
         });
     }
 }
+
+#[cfg(maidsafe_safe_network_verif)]
+pub(crate) mod verif;
 
 #[cfg(test)]
 mod tests {
